@@ -39,6 +39,7 @@ CALCS = {
     ("d2o_sld", "C3H4H[1]NO@1.29n"): [((1, 0, 0), "neutron"), ((1, 1, 0), "neutron"), ((1, 2, 0), "neutron"),
                                        ((8, 0, 0), "neutron")],
     ("activation", "Co"): [((27, 59, 0), "neutron_activation")],
+    ("activation_iaea", "Co"): [((27, 59, 0), "neutron_activation")],
 }
 
 TABLES = ["public", "T1", "T2"]
@@ -175,7 +176,9 @@ class Lab:
         if k in ("read", "has"):
             return [("%s %d %s %d" % (k, self.t_id(ev[1]), self.chain_text[tuple(ev[2])], self.attrs.index(ev[3])),
                      (k, tuple(ev[2]), ev[3]))]
-        if k == "init":
+        if k in ("init", "reinit"):
+            # (reload=True on a table without user assignments re-applies the same effects: for the model a
+            #  repeated init; what the real code makes of it is judged by the oracle)
             return [("init %d %d" % (self.cfg["inits"].index(ev[1]), self.t_id(ev[2])), ("init", None, None))]
         if k == "import":
             return [("import %d" % self.cfg["modules"].index(ev[1]), ("import", None, None))]
@@ -324,7 +327,7 @@ def oracle(lab: Lab, hist, outs):
     idsets = {}
     for i, (ev, out) in enumerate(zip(hist, outs)):
         k = ev[0]
-        if k == "init":
+        if k in ("init", "reinit"):
             gi = init_group(lab, ev[1])
             if out != ["ok"]:
                 bad.append((i, "%s(%s) raised %s" % (ev[1], ev[2], out[1] if len(out) > 1 else out),
